@@ -129,6 +129,7 @@ impl C06 {
         {
             let dir = cli::scratch("c06", crate::runner::next_serial());
             let _ = std::fs::create_dir_all(dir.join("sub"));
+            let _ = std::fs::create_dir_all(dir.join("sub2"));
             for (n, t) in &case.files {
                 let _ = std::fs::write(dir.join(n), t);
             }
@@ -341,8 +342,8 @@ impl Prop for C06 {
             ("missing.s", ""),
             ("./sub", ""),
             // two different spellings of the file itself (every level doubles the work if neither is recognised)
-            ("sub/../main.s|./sub/../main.s", ""),
-            ("sub/../b.s|sub/.././b.s", "sub/../main.s|sub/../b.s"),
+            ("sub/../main.s|sub2/../main.s", ""),
+            ("sub/../b.s|sub2/../b.s", "sub/../main.s|sub2/../b.s"),
         ]
         .iter()
         .enumerate()
